@@ -28,6 +28,7 @@ PROPS = {
              technique="deterministic simulation under the Go race detector: the simulator's own hand-offs are hidden from the detector (RaceDisable), so it reports unsynchronised accesses of repo code along each explored schedule",
              level_note="as strong as the Go race detector along the explored schedules; reports whose two accesses are not both in repo code (harness/stub memory) are ignored"),
     "C22": P("w1", quick_runs=3000, thorough_runs=150000, quick_budget_s=100, thorough_budget_s=1200),
+    "C24": P("w1", quick_runs=3000, thorough_runs=150000, quick_budget_s=100, thorough_budget_s=1200, required_probes=["c24.denied-item"]),
 }
 
 NA = {
